@@ -191,7 +191,8 @@ theorem shlFF_accepts (M : Mesh) (hM : MeshOk M) (f o : CF) (hf : Good M f) (ho 
     ∃ g, shlFF f o = .ok g ∧ Good M g ∧ g.nvdim = f.nvdim + o.nvdim ∧ g.unit = none ∧
       g.vdims = shlLabels f.vdims o.vdims (f.nvdim + o.nvdim) ∧
       (if (dictUpdate f.vmap o.vmap).length = f.nvdim + o.nvdim then g.vmap = dictUpdate f.vmap o.vmap
-       else vmapSet (f.nvdim + o.nvdim) M.region.ndim g.vdims M.region.dims none = .ok g.vmap) := by
+       else vmapSet (f.nvdim + o.nvdim) M.region.ndim g.vdims M.region.dims none = .ok g.vmap) ∧
+      g.kind = (f.kind.join o.kind).ctor := by
   obtain ⟨hwf, hsf, hmf⟩ := hf
   obtain ⟨hwo, hso, hmo⟩ := ho
   have hpf := hwf.2.2
@@ -262,11 +263,11 @@ theorem shlFF_accepts (M : Mesh) (hM : MeshOk M) (f o : CF) (hf : Good M f) (ho 
       obtain ⟨m, hm⟩ := vmapSet_none_accepts _ _ _ _ hnone
       exact ⟨m, hm, by rw [if_neg hlen]; exact hm⟩
   obtain ⟨vm', hvm1, hvm2⟩ := hvm
-  obtain ⟨g, hg, hgm, hgn, hgvd, hgvm, hgu, _, hgwf⟩ :=
+  obtain ⟨g, hg, hgm, hgn, hgvd, hgvm, hgu, hgk, hgwf⟩ :=
     mkField_accepts M (f.nvdim + o.nvdim) res (f.kind.join o.kind) (shlVdims f.vdims o.vdims)
       (some (NDA.zipWith (fun x y => x && y) f.valid o.valid)) _ none (by omega) hrs hvshape vd' vm' hvd hvm1
   have hstable : MetaStable g := mkField_stable M _ _ _ _ _ _ _ g hM.1 hvne hg
-  refine ⟨g, ?_, ⟨hgwf, hstable, hgm⟩, hgn, hgu, by rw [hgvd, hvd'], ?_⟩
+  refine ⟨g, ?_, ⟨hgwf, hstable, hgm⟩, hgn, hgu, by rw [hgvd, hvd'], ?_, hgk⟩
   · unfold shlFF
     rw [if_neg (by simp [hme]), hres, hmf]
     exact hg
